@@ -109,6 +109,7 @@ func (cs Creds) Authorized(user, pass string, n Need) bool {
 //	right     right user name and password
 //	unknown   a user the store does not know (with u's real password)
 //	nouser    empty user name with u's real password
+//	emptypw   right user name, empty password
 func (cs Creds) Present(u int, pres string) (user, pass string, present bool) {
 	var c Cred
 	if len(cs) > 0 {
@@ -127,11 +128,13 @@ func (cs Creds) Present(u int, pres string) (user, pass string, present bool) {
 		return "mallory", c.Password, true
 	case "nouser":
 		return "", c.Password, true
+	case "emptypw":
+		return c.Username, "", true
 	}
 	return "", "", false
 }
 
-var Presentations = []string{"none", "wrong", "right", "unknown", "nouser"}
+var Presentations = []string{"none", "wrong", "right", "unknown", "nouser", "emptypw"}
 
 // Store builds the real credential store from the same entries, through the
 // real loader.
